@@ -43,6 +43,23 @@ CLAIMS = {
                 "fixed-width conversions guarded before the acknowledged enqueue.",
         "not_decided": "'retrievable thereafter' end-to-end; absence of value-dependent faults in pre_save/process_tags for all well-formed events.",
     },
+    "C15": {
+        "technique": "CFG must-pass-through on guard edges (guard participation with comparison direction and bound), string-as-container "
+                     "lint, value provenance of the challenge and of the connection token",
+        "text": TXT + "Decides: token only after check_auth_event on the payload event and the challenge parameter; each NIP-42 check "
+                "(signature, kind, two-sided freshness <= 600 s, relay membership, challenge equality, both tags required) gates the normal "
+                "exit; valid_urls is never a str; challenge = secrets.token_*(>=16) bound once per connection; auth_token bound only by a "
+                "successful authenticate().",
+        "not_decided": "off-by-one at exactly +-600 s; replay within the window on the same connection; cryptography.",
+    },
+    "C19": {
+        "technique": "structural containment lint over the handler's try ladder, contradiction rule for None-default parameters on the CFG, "
+                     "constant-index vs derived minimum length, acquire/release idiom check, ownership of the registry key",
+        "text": TXT + "Decides: every statement of the message loop is inside a try with a closing catch-all; outer catch-all + finally; no "
+                "unguarded use of a None-default parameter (finally included); message[k] below the validated length; cleanup pairing; "
+                "slots only via async with / try-finally; unbounded per-connection queue; filter errors mapped.",
+        "not_decided": "liveness and cross-connection isolation as runtime facts; resource exhaustion.",
+    },
 }
 
 PENDING = "checker for this property is not implemented yet in this revision; nothing is claimed"
